@@ -781,11 +781,60 @@ def make_spec_dir(text):
 
 
 # ---------------------------------------------------------------------------- spectrum output
+BINNER_KINDS = dict(NativeBinner='native', SimpleBinner='simple', FluxBinner='flux', LightcurveBinner='lightcurve')
+
+
+def binner_kinds():
+    """Output.tla: Binners -- EVERY class of the package taurex.binning that can write a spectrum dictionary (the abstract
+    base class cannot: its bindown raises).  A class the specification does not name is not silently left out."""
+    import importlib
+    import inspect
+    import pkgutil
+    import taurex.binning as pkg
+    from taurex.binning import Binner
+    found = {}
+    for m in pkgutil.iter_modules(pkg.__path__):
+        mod = importlib.import_module('taurex.binning.' + m.name)
+        for name, k in inspect.getmembers(mod, inspect.isclass):
+            if issubclass(k, Binner) and k is not Binner and k.__module__ == mod.__name__:
+                found[name] = k
+    if set(found) != set(BINNER_KINDS):
+        raise Machinery('binner classes of taurex.binning %s, specification (Output.tla: Binners) %s' % (sorted(found), sorted(BINNER_KINDS)))
+    return {BINNER_KINDS[n]: k for n, k in found.items()}
+
+
+def lightcurve_result(result, centres):
+    """The output tuple of a light-curve forward model (LightCurveModel.model): (binned grid, light curve, optical depths of
+    the wrapped model, [native grid, native spectrum, binned spectrum, extra])."""
+    native, flux, tau = np.asarray(result[0]), np.asarray(result[1]), np.asarray(result[2])
+    centres = np.sort(np.asarray(centres, dtype=float))
+    binned = np.interp(centres, native, flux)
+    lc = np.concatenate([1.0 - b * np.linspace(0.25, 1.0, 5) for b in binned])
+    return centres, lc, tau, [native, flux, binned, None]
+
+
+def judge_lightcurve_output(ctx, g, lcres, cls, vec):
+    """the light-curve binner 'does nothing' to what it is handed: every stored array is the model's own"""
+    centres, lc, tau, (native, flux, binned, _) = lcres
+    def same(k, a):
+        return k in g and g[k].shape == np.shape(a) and np.array_equal(g[k], a, equal_nan=True)
+    ctx.verdict('NativeGrid', same('native_wngrid', native) and same('native_wlgrid', 10000.0 / native) and same('native_spectrum', flux), cls=cls,
+                detail='native grid / 10000 over it / native spectrum of the light-curve output altered', vector=vec)
+    ctx.verdict('BinnedWlGrid', same('binned_wngrid', centres) and same('binned_wlgrid', 10000.0 / centres), cls=cls,
+                detail='binned_wlgrid != 10000/binned_wngrid (or not the model\'s binned grid)', vector=vec)
+    ctx.verdict('BinnedSpectrum', same('binned_spectrum', binned) and same('lightcurve', lc), cls=cls,
+                detail='binned_spectrum / lightcurve are not the arrays the light-curve model returned', vector=vec)
+    for k in ('native_tau', 'binned_tau'):
+        if k in g:
+            ctx.verdict('BinnedTau', same(k, tau), cls=cls, detail='%s is not the optical depth of the model output' % k, vector=vec)
+
+
 def run_spectrum_outputs(ctx, keytable, tmp, classes):
     import h5py
     from taurex import OutputSize
     from taurex.binning import FluxBinner, SimpleBinner, NativeBinner
     from taurex.output.hdf5 import HDF5Output
+    kinds = binner_kinds()
     model = build_model(dict(model='TransmissionModel', temp='Isothermal', gas1='ConstantGas', gas2='ConstantGas',
                              contribs=('AbsorptionContribution', 'RayleighContribution')), classes)
     result = model.model()
@@ -796,28 +845,40 @@ def run_spectrum_outputs(ctx, keytable, tmp, classes):
     sizes = dict(heavy=OutputSize.heavy, light=OutputSize.light, lighter=OutputSize.lighter)
     want_keys = {(r['binner'], r['size']): set(r['keys']) for r in keytable}
     path = os.path.join(tmp, 'spec.h5')
-    for bname in ('native', 'simple', 'flux'):
+    if set(b for b, _ in want_keys) != set(kinds):
+        raise Machinery('key table of the specification names the binners %s, the package has %s' % (sorted(set(b for b, _ in want_keys)), sorted(kinds)))
+    for bname in ('native', 'simple', 'flux', 'lightcurve'):
         for gname, grid in list(grids.items()) + [('dyadic', dy_wn)]:
             if bname == 'native' and gname != 'uniform':
                 continue
             widths = dy_w if gname == 'dyadic' else None
             def mk(bname=bname, grid=grid, widths=widths):
-                if bname == 'native':
-                    return NativeBinner()
+                if bname in ('native', 'lightcurve'):
+                    return kinds[bname]()
                 if bname == 'simple':
                     return SimpleBinner(np.sort(grid), None if widths is None else np.array(widths))      # SimpleBinner expects an ascending grid
                 return FluxBinner(np.array(grid), None if widths is None else np.array(widths))
             binner = mk()
             for sname, size in sizes.items():
                 cls = '%s:%s:%s' % (bname, sname, gname)
-                out = binner.generate_spectrum_output(result, output_size=size)
-                with HDF5Output(path) as o:
-                    o.store_dictionary(out, group_name='Spectra')
-                with h5py.File(path, 'r') as f:
-                    g = {k: f['Spectra'][k][...] for k in f['Spectra']}
                 vec = dict(binner=bname, size=sname, grid=gname)
+                given = lightcurve_result(result, grid) if bname == 'lightcurve' else result
+                try:
+                    out = binner.generate_spectrum_output(given, output_size=size)
+                    with HDF5Output(path) as o:
+                        o.store_dictionary(out, group_name='Spectra')
+                    with h5py.File(path, 'r') as f:
+                        g = {k: f['Spectra'][k][...] for k in f['Spectra']}
+                except Machinery:
+                    raise
+                except Exception as e:
+                    ctx.verdict('SpectrumKeys', False, cls=cls, detail='writing the spectrum dictionary raised %s: %s' % (type(e).__name__, e), vector=vec)
+                    continue
                 ctx.verdict('SpectrumKeys', set(g) == want_keys[(bname, sname)], cls=cls,
                             detail='stored keys %s, specification %s' % (sorted(g), sorted(want_keys[(bname, sname)])), vector=vec)
+                if bname == 'lightcurve':
+                    judge_lightcurve_output(ctx, g, given, cls, vec)
+                    continue
                 ok = np.array_equal(g['native_wlgrid'], 10000.0 / g['native_wngrid']) and np.array_equal(g['native_spectrum'], result[1])
                 ctx.verdict('NativeGrid', ok, cls=cls, detail='native_wlgrid != 10000/native_wngrid or native spectrum altered', vector=vec)
                 if bname == 'native':
@@ -1237,16 +1298,29 @@ def run_size_callers(ctx, tmp, classes, rng, tau_rows):
     result = model.model()
     grid = np.linspace(500.0, 1900.0, 8)
     path = os.path.join(tmp, 'size.h5')
-    for bname, binner in (('native', NativeBinner()), ('simple', SimpleBinner(grid)), ('flux', FluxBinner(grid))):
+    if set(OutputSize.__members__) != set(sizes):
+        raise Machinery('OutputSize has the members %s, the specification (Output.tla: Sizes) %s' % (sorted(OutputSize.__members__), sorted(sizes)))
+    kinds = binner_kinds()
+    wanted = {(r['caller'], r['binner']) for r in tau_rows}
+    # binner kind x size is a PRODUCT (MC_Output_sizeswapped: one kind alone can have its own slip): every class of the package
+    for bname, binner in (('native', kinds['native']()), ('simple', kinds['simple'](grid)), ('flux', kinds['flux'](grid)), ('lightcurve', kinds['lightcurve']())):
+        given = lightcurve_result(result, grid) if bname == 'lightcurve' else result
         for sname, member in sizes.items():
             # the member itself and the plain integer of the same value (OutputSize is an IntEnum)
             for how, size in (('member', member), ('int', int(member))):
-                out = binner.generate_spectrum_output(result, output_size=size)
-                with HDF5Output(path) as o:
-                    o.store_dictionary(out, group_name='Spectra')
-                with h5py.File(path, 'r') as f:
-                    ev, _ = tau_events_of_block(f['Spectra'], 'direct', bname, sname, 'direct(%s)' % how, True)
+                try:
+                    out = binner.generate_spectrum_output(given, output_size=size)
+                    with HDF5Output(path) as o:
+                        o.store_dictionary(out, group_name='Spectra')
+                    with h5py.File(path, 'r') as f:
+                        ev, _ = tau_events_of_block(f['Spectra'], 'direct', bname, sname, 'direct(%s)' % how, True)
+                except Machinery:
+                    raise
+                except Exception as e:
+                    ev = [dict(ev='tau', caller='direct', place='Spectra', binner=bname, size=sname, tau=['<raised %s>' % type(e).__name__], group='direct(%s)' % how)]
                 events += ev
+                if ('contributions', bname) not in wanted:      # CallersOf(binner): the light-curve binner is reached directly only
+                    continue
                 block = store_contributions(binner, model, output_size=size)
                 with HDF5Output(path) as o:
                     o.store_dictionary(block, group_name='Contributions')
@@ -1432,7 +1506,7 @@ def run(ctx):
                       'sign, BibTeX block; scalars, lists, tuples, nested sequences, dictionaries in lists), '
                       + ('2 top-level keys, depth 2' if q else '3 top-level keys, depth 2; export: depth 3'),
                       random_dictionaries=400 if q else 4000, model_roundtrips='pairwise cover (%d) + component sweep' % (8 if q else 60),
-                      spectrum_outputs='3 binners x 3 output sizes x (uniform, unsorted non-uniform, dyadic) grids; output size consumed through '
+                      spectrum_outputs='4 binner kinds (every class of taurex.binning) x 3 output sizes x (uniform, unsorted non-uniform, dyadic) grids; output size consumed through '
                       'direct calls (member and int), store_contributions, the taurex program (5 binning set-ups) and Optimizer.generate_solution',
                       bibliography='short form and BibTeX of every built-in class that carries citations',
                       binner_histories='one FluxBinner / SimpleBinner / NativeBinner each through every ordered pair of %d operations (bindown with / without '
@@ -1476,6 +1550,8 @@ def run(ctx):
         # five independent small TLC runs side by side (bookkeeping in this thread): label, module, cfg, invariant TLC must refute (None: must hold)
         jobs = [('numpy2-valueerror-not-caught', 'MC_Output', 'MC_Output_numpy2.cfg', 'RoundTrip'),
                 ('size-by-identity', 'MC_Output', 'MC_Output_sizeident.cfg', 'SizeArith'),
+                # ONE binner kind (the light-curve binner) with the native / binned payloads of the two size tests exchanged: refuted at 'light'
+                ('size-swapped-in-one-binner-kind', 'MC_Output', 'MC_Output_sizeswapped.cfg', 'SizeArith'),
                 ('writer-lemma', 'MC_OutputWr', 'MC_OutputWr_sufficient.cfg', None),
                 ('writer-lemma-any-values', 'MC_OutputWr', 'MC_OutputWr_any.cfg', 'Exposes'),
                 # a sweep without the 'falsy' input class cannot see a write() that tests `if value:` (TLC's counterexample: identity map, guard "truthy")
